@@ -147,3 +147,20 @@ contract(f"{ENV}::PrimaiteGymEnv.reset", props=["C01", "C03", "C04"],
                    " and event_kind(n_events() - 1) == ev('setup') and event_arg(n_events() - 1, 0) is self.game and event_arg(n_events() - 1, 1) == old(self.episode_counter) + 1"),
                   ("total_reward_recorded", "self.total_reward_per_episode[old(self.episode_counter)] == old(self.game.rl_agents[self._agent_name].reward_function.total_reward)")],
          modifies=["heap"], allocates=True)
+
+# ---- an application action that must not take the step down: the web browser -----------------------------------------------------------
+# (C01 "a step completes without raising ... actions aimed at missing or mis-configured components"; found by a seeded-change
+# exploration: a browser without a configured URL asked the DNS client about the domain None, and pydantic refused the request object)
+WB = "src/primaite/simulator/system/applications/web_browser.py"
+DNSC = "src/primaite/simulator/system/services/dns/dns_client.py"
+contract(f"{DNSC}::DNSClient.check_domain_exists", verify=False,
+         note="DNS look-up; builds DNSRequest(domain_name_request=target_domain), a pydantic model whose field is a str: a None domain raises ValidationError",
+         requires=["target_domain is not None"], ensures=["implies(result, target_domain in self.dns_cache)"], modifies=["heap"],
+         preserves=["WebBrowser.config", "WebBrowser.ConfigSchema.target_url"], allocates=True)
+contract(f"{WB}::WebBrowser.send", verify=False, note="hands the request to the session manager; the response arrives in latest_response (always a packet)",
+         ensures=["self.latest_response is not None"], modifies=["heap"], allocates=True)
+attr_types({"DNSClient.dns_cache": "Dict[str, IPv4Address]"})
+contract(f"{WB}::WebBrowser.get_webpage", props=["C01"],
+         requires=["self.software_manager is not None", "'dns-client' in self.software_manager.software"],
+         ensures=[("dead_application_does_nothing", "implies(not old(host_on(self) and self.operating_state == ApplicationOperatingState.RUNNING), result == False and unchanged())")],
+         modifies=["heap"], allocates=True)
